@@ -57,6 +57,7 @@ def strategy_impl(draw, tier):
         "face_order": list(draw(st.permutations(list(range(nf))))),
         "reverse_axes": draw(st.booleans()),
         "via_2d": draw(st.booleans()),
+        "carry_coords": draw(st.booleans()),   # the inputs carry the dataset's coordinates (face labels included) or none
     }
 
 
@@ -175,6 +176,19 @@ def check(case, ctx):
         data, other = ({"X": uda}, {"Y": vda}) if vec == "X" else ({"Y": vda}, {"X": uda})
         base = ub if vec == "X" else vb
         model_arrs = {"X": arrs["U"], "Y": arrs["V"]}
+    if case.get("carry_coords"):
+        dsc = {"xc": ("xc", np.arange(N) + 0.5), "xl": ("xl", np.arange(N) * 1.0), "yc": ("yc", np.arange(N) + 0.5),
+               "yl": ("yl", np.arange(N) * 1.0), "face": ("face", np.arange(nf))}
+        dsc.update({name: (name, np.arange(size) * 1.0) for name, size in case["extra"]})
+
+        def labelled(x):
+            return x.assign_coords({d: dsc[d] for d in x.dims if d in dsc})
+
+        if case["kind"] == "scalar":
+            data = labelled(data)
+        else:
+            uda, vda = labelled(uda), labelled(vda)
+            data, other = ({"X": uda}, {"Y": vda}) if vec == "X" else ({"Y": vda}, {"X": uda})
     if vec is not None:
         # the Grid is used for a scalar padding with other widths first: earlier calls must not matter
         probe = xr.DataArray(np.arange(float(nf * N * N)).reshape(nf, N, N), dims=["face", "yc", "xc"])
